@@ -419,7 +419,21 @@ def _truncation(chk, repo, folder):
         return
     fixed = set(table)
     setlit = ast.Set(elts=[ast.Constant(value=k) for k in sorted(fixed)])
+    from .common import conj_of_facts as _conj, substitute_src as _sub
     for c in cuts:
+        # a response that carries more bytes than the entry declares is cut (also when the server gives no size): the size part of the
+        # conditions in force, evaluated for (declared, indicated) = (1, 4), (2, 8), (5, 8), (4, None)
+        szf = [(e, p) for e, p in ff.facts_at(c) if "response_size" in src(e)]
+        if szf:
+            miss = None
+            for dec_, ind_ in ((1, 4), (2, 8), (5, 8), (4, None)):
+                v_ = folder.try_fold(_sub(_conj(szf), {"var_size": dec_, "len(var) // 8": dec_, "response_size": ind_}), ff.scope, "?")
+                if v_ == "?":
+                    miss = None
+                    break
+                if not v_:
+                    miss = miss or f"an entry declared with {dec_} byte(s) answered with {ind_ if ind_ is not None else 'no'} indicated size is not cut to its declared width (conditions {[(src(e), p) for e, p in szf]})"
+            chk.check(miss is None, "R11", f"{CL}:SdoClient.upload | longer responses are cut to the declared size", f.loc(c), miss or "")
         facts = [(e, p) for e, p in ff.facts_at(c) if "data_type" in src(e)]
         if not facts:
             chk.bad("R11", f"{CL}:SdoClient.upload | truncation guard", f.loc(c), "uploaded data is truncated to len(var)//8 without looking at the entry's data type: "
